@@ -291,7 +291,8 @@ def server_cases(tier, seed):
               {"mode": UIHB}, {"mode": "unknown"}, {"onboarded": False}, {"onboarded": "error"},
               {"signer_version": [5, 4, 2]}, {"signer_version": [6, 0, 0]},
               {"mode": BOOT, "ui_version": [5, 5, 0]}, {"mode": BOOT, "signer_version": [5, 5, 0]},
-              {"platform": "TCP"}, {"platform": "SGX"}, {"signer_version": [5, 3, 9]}]:
+              {"platform": "TCP"}, {"platform": "SGX"}, {"signer_version": [5, 3, 9]},
+              {"restart": True}, {"restart": True, "mode": BOOT, "platform": "SGX"}]:
         c = dict(base)
         c.update(d)
         out.append(c)
@@ -299,12 +300,29 @@ def server_cases(tier, seed):
 
 
 def run_server(c):
+    if c.get("restart"):
+        # a manager that served a client is stopped and started again at once on the same port
+        # (an ordinary service restart): it serves again
+        probe = socket.socket()
+        probe.bind(("127.0.0.1", 0))
+        port = probe.getsockname()[1]
+        probe.close()
+        for n in (1, 2, 3):
+            out = _serve_once(dict(c, restart=False, passive_close=True), port)
+            if "server:answered" not in out.labels:
+                raise Violation("server-answers-mismatch", "start #%d on port %d of a manager "
+                                "whose device qualifies did not serve" % (n, port))
+        return Out(["server:answered", "server:restarted"], True)
+    return _serve_once(c, 0)
+
+
+def _serve_once(c, port):
     from comm.server import TCPServer
     c = dict(c)
     c["ui_version"] = tuple(c["ui_version"])
     c["signer_version"] = tuple(c["signer_version"])
     w, p = build(c)
-    srv = TCPServer("127.0.0.1", 0, p)
+    srv = TCPServer("127.0.0.1", port, p)
     res = {}
 
     def target():
@@ -323,7 +341,21 @@ def run_server(c):
             try:
                 port = srv.server.server_address[1]
                 from checks.c03 import _talk
-                data = _talk(port, b'{"command":"version"}', timeout=5)
+                if c.get("passive_close"):
+                    # the client leaves it to the manager to close the connection first
+                    s_ = socket.create_connection(("127.0.0.1", port), timeout=5)
+                    try:
+                        s_.sendall(b'{"command":"version"}\n')
+                        data = b""
+                        while True:
+                            d_ = s_.recv(65536)
+                            if not d_:
+                                break
+                            data += d_
+                    finally:
+                        s_.close()
+                else:
+                    data = _talk(port, b'{"command":"version"}', timeout=5)
                 answered = mw.parse_reply(data) is not None
                 break
             except OSError:
@@ -346,7 +378,7 @@ def run_server(c):
 
 REQUIRED_LABELS = {t: ["change:%s" % x for x in CHANGES] + ["out:serve", "out:error", "out:interrupt", "platform:Ledger",
                        "platform:SGX", "platform:TCP", "unlocks:0", "unlocks:1", "serves",
-                       "server:answered", "server:silent", "fault-at-unlock", "fault-out:stop",
+                       "server:answered", "server:silent", "server:restarted", "fault-at-unlock", "fault-out:stop",
                        "fault-platform:SGX", "fault-platform:Ledger", "echo:hdr-cmd",
                        "echo:hdr-cla", "echo:short", "echo:False", "echo:True"] for t in ("quick", "thorough")}
 
